@@ -34,6 +34,10 @@ type Fault struct {
 // declS is shared by the faults that need a struct type.
 const declS = "type S2 struct {\n\tX int\n\tF float64\n}\n\ntype S struct {\n\tX int\n\tY string\n\tF float64\n\tP *S2\n\tA any\n}\n"
 
+// declEmb declares structs that embed pointers, three levels deep: the fields X, Y, Z
+// and W of EO are promoted through *E1, *E1.*E2 and *E1.*E2.*E3.
+const declEmb = "type E3 struct {\n\tZ int\n\tW string\n}\n\ntype E2 struct {\n\t*E3\n\tY int\n}\n\ntype E1 struct {\n\t*E2\n\tX float64\n}\n\ntype EO struct {\n\t*E1\n\tV int\n}\n"
+
 // Faults is the table of fault kinds.
 var Faults = []Fault{
 	// integer division
@@ -71,6 +75,28 @@ var Faults = []Fault{
 	{Name: "nilptr_array_slice", Stmts: "var pa *[3]int\ns := pa[:]\nprint(len(s))", Panics: true, Msg: "nil pointer dereference"},
 	{Name: "nilptr_array_range", Stmts: "var pa *[3]int\nfor _, v := range pa {\n\tprint(v)\n}", Panics: true, Msg: "nil pointer dereference"},
 	{Name: "nil_iface_method", Stmts: "var e error\nprint(e.Error())", Panics: true, Msg: "nil pointer dereference"},
+	// promoted fields through nil embedded pointers (nil at level 1, 2 and 3)
+	{Name: "emb1_read", Decls: declEmb, Stmts: "var o EO\nprint(o.X)", Panics: true, Msg: "nil pointer dereference"},
+	{Name: "emb1_write", Decls: declEmb, Stmts: "var o EO\no.X = 1.5", Panics: true, Msg: "nil pointer dereference"},
+	{Name: "emb1_addr", Decls: declEmb, Stmts: "var o EO\np := &o.X\nprint(*p)", Panics: true, Msg: "nil pointer dereference"},
+	{Name: "emb2_read", Decls: declEmb, Stmts: "o := EO{E1: &E1{}}\nprint(o.Y)", Panics: true, Msg: "nil pointer dereference"},
+	{Name: "emb2_write", Decls: declEmb, Stmts: "o := &EO{E1: &E1{}}\no.Y = 2", Panics: true, Msg: "nil pointer dereference"},
+	{Name: "emb2_incr", Decls: declEmb, Stmts: "o := EO{E1: &E1{}}\no.Y++", Panics: true, Msg: "nil pointer dereference"},
+	{Name: "emb3_read", Decls: declEmb, Stmts: "o := EO{E1: &E1{E2: &E2{}}}\nprint(o.Z)", Panics: true, Msg: "nil pointer dereference"},
+	{Name: "emb3_read_string", Decls: declEmb, Stmts: "o := &EO{E1: &E1{E2: &E2{}}}\nprint(o.W)", Panics: true, Msg: "nil pointer dereference"},
+	{Name: "emb3_write_string", Decls: declEmb, Stmts: "o := EO{E1: &E1{E2: &E2{}}}\no.W = \"w\"", Panics: true, Msg: "nil pointer dereference"},
+	{Name: "emb3_addr", Decls: declEmb, Stmts: "o := &EO{E1: &E1{E2: &E2{}}}\np := &o.Z\n*p = 3", Panics: true, Msg: "nil pointer dereference"},
+	{Name: "emb3_through_level1_nil", Decls: declEmb, Stmts: "var o EO\nprint(o.Z, o.W)", Panics: true, Msg: "nil pointer dereference"},
+	{Name: "emb_outer_nil", Decls: declEmb, Stmts: "var o *EO\nprint(o.Z)", Panics: true, Msg: "nil pointer dereference"},
+	{Name: "emb_embedded_ptr_value", Decls: declEmb, Stmts: "var o EO\nprint(o.E1 == nil, o.V)\ne := o.E1\nprint(e.X)", Panics: true, Msg: "nil pointer dereference"},
+	{Name: "emb_ok", Decls: declEmb, Stmts: "o := EO{E1: &E1{E2: &E2{E3: &E3{Z: 1}}}}\no.W = \"w\"\no.Y++\np := &o.X\n*p = 2\nprint(o.Z, o.W, o.Y, o.X)"},
+	{Name: "emb_native1_read", Stmts: "print(pkg.EmbNil.Y)", Panics: true, Msg: "nil pointer dereference"},
+	{Name: "emb_native1_write", Stmts: "pkg.EmbNil.Y = 3", Panics: true, Msg: "nil pointer dereference"},
+	{Name: "emb_native2_read", Stmts: "print(pkg.EmbHalf.Z, pkg.EmbHalf.W)", Panics: true, Msg: "nil pointer dereference"},
+	{Name: "emb_native2_write", Stmts: "pkg.EmbHalf.W = \"w\"", Panics: true, Msg: "nil pointer dereference"},
+	{Name: "emb_native2_addr", Stmts: "p := &pkg.EmbHalf.Z\nprint(*p)", Panics: true, Msg: "nil pointer dereference"},
+	{Name: "emb_native_ptr_read", Stmts: "e := pkg.NewEmb()\nprint(e.Y)\nprint(e.Z)", Panics: true, Msg: "nil pointer dereference"},
+	{Name: "emb_native_ok", Stmts: "print(pkg.EmbFull.Y, pkg.EmbFull.Z, pkg.EmbFull.W)"},
 	// index out of range
 	{Name: "index_slice_read", Stmts: "a := []int{1, 2}\ni := 5\nprint(a[i])", Panics: true, Msg: "index out of range [5] with length 2"},
 	{Name: "index_slice_write", Stmts: "a := []int{1, 2}\ni := 5\na[i] = 1", Panics: true, Msg: "index out of range [5] with length 2"},
@@ -199,6 +225,15 @@ var Faults = []Fault{
 	{Name: "native_var_nil_map", Stmts: "pkg.NilMap[\"a\"] = 1", Panics: true, Msg: "assignment to entry in nil map"},
 	{Name: "native_var_index", Stmts: "i := 9\nprint(pkg.Ints[i])", Panics: true, Msg: "index out of range [9] with length 3"},
 	{Name: "native_callback_nil", Stmts: "var f func()\npkg.MaybeCall(f)"},
+	// sequences of select statements whose send cases, at the same case index, send values
+	// of different types of the same kind (the VM reuses the holders of the cases)
+	{Name: "select_send_slices", NoTmpl: true, Stmts: "c1 := make(chan []int, 1)\nc2 := make(chan []string, 1)\nc3 := make(chan [][]byte, 1)\nselect {\ncase c1 <- []int{1}:\ndefault:\n}\nselect {\ncase c2 <- []string{\"a\", \"b\"}:\ndefault:\n}\nselect {\ncase c3 <- nil:\ndefault:\n}\nprint(len(<-c1), len(<-c2), len(<-c3))"},
+	{Name: "select_send_pointers", NoTmpl: true, Stmts: "c1 := make(chan *int, 1)\nc2 := make(chan *string, 1)\nc3 := make(chan *[]int, 1)\nn, s := 1, \"a\"\nselect {\ncase c1 <- &n:\n}\nselect {\ncase c2 <- &s:\n}\nselect {\ncase c3 <- nil:\n}\nprint(*<-c1, *<-c2, <-c3 == nil)"},
+	{Name: "select_send_structs", NoTmpl: true, Stmts: "c1 := make(chan struct{ A int }, 1)\nc2 := make(chan struct{ B string }, 1)\nc3 := make(chan struct{}, 1)\nselect {\ncase c1 <- struct{ A int }{1}:\ndefault:\n}\nselect {\ncase c2 <- struct{ B string }{\"b\"}:\ndefault:\n}\nselect {\ncase c3 <- struct{}{}:\ndefault:\n}\nprint((<-c1).A, (<-c2).B, len(c3))"},
+	{Name: "select_send_interfaces", NoTmpl: true, Stmts: "c1 := make(chan any, 1)\nc2 := make(chan error, 1)\nselect {\ncase c1 <- 5:\ndefault:\n}\nselect {\ncase c2 <- errors.New(\"e\"):\ndefault:\n}\nselect {\ncase c1 <- \"s\":\ndefault:\n}\nprint((<-c1).(int), (<-c2).Error())"},
+	{Name: "select_send_maps_funcs_chans", NoTmpl: true, Stmts: "m1 := make(chan map[string]int, 1)\nm2 := make(chan map[int]string, 1)\nf1 := make(chan func(), 1)\nf2 := make(chan func(int) int, 1)\nk1 := make(chan chan int, 1)\nk2 := make(chan chan string, 1)\nselect {\ncase m1 <- map[string]int{\"a\": 1}:\ncase f1 <- func() {}:\n}\nselect {\ncase m2 <- map[int]string{1: \"a\"}:\ncase f2 <- func(x int) int { return x }:\n}\nselect {\ncase k1 <- make(chan int):\ndefault:\n}\nselect {\ncase k2 <- make(chan string):\ndefault:\n}\nprint(len(m1)+len(f1), len(m2)+len(f2), len(k1), len(k2))"},
+	{Name: "select_send_arrays_named", Decls: "type Num int\n\ntype Str string\n", Stmts: "a1 := make(chan [2]int, 1)\na2 := make(chan [3]int, 1)\nn1 := make(chan int, 1)\nn2 := make(chan Num, 1)\ns1 := make(chan string, 1)\ns2 := make(chan Str, 1)\nselect {\ncase a1 <- [2]int{1, 2}:\ncase n1 <- 1:\ncase s1 <- \"a\":\n}\nselect {\ncase a2 <- [3]int{1, 2, 3}:\ncase n2 <- Num(2):\ncase s2 <- Str(\"b\"):\n}\nprint(len(a1)+len(n1)+len(s1), len(a2)+len(n2)+len(s2))"},
+	{Name: "select_send_loop_types", NoTmpl: true, Stmts: "ci := make(chan []int, 4)\ncs := make(chan []string, 4)\ncp := make(chan *int, 4)\ncq := make(chan *string, 4)\nfor i := 0; i < 4; i++ {\n\tif i%2 == 0 {\n\t\tselect {\n\t\tcase ci <- []int{i}:\n\t\tcase cp <- &i:\n\t\t}\n\t} else {\n\t\tselect {\n\t\tcase cs <- []string{\"x\"}:\n\t\tcase cq <- nil:\n\t\t}\n\t}\n}\nprint(len(ci)+len(cp), len(cs)+len(cq))"},
 	// the contains operator of templates (its map, slice and string forms are evaluated
 	// by the If instruction)
 	{Name: "contains_map_unhashable_key", TmplOnly: true, Stmts: "m := map[any]int{}\nvar k any = []int{1}\nprint(m contains k)", Panics: true, Msg: "hash of unhashable type"},
